@@ -239,6 +239,7 @@ def make_backend_class():
             self.last_resume_error = None
             self.occupancy_checks = []  # (occupying ids, call) at every backend call, for the checker
             self.in_poll = False
+            self.in_busy_look = False
             self.failed_in_poll = []    # (trial, poll number): the scripted job ended Failed, seen by that poll
 
         # ---- worker side (abstract methods of TrialBackend) -------------------------------
@@ -267,6 +268,10 @@ def make_backend_class():
                     if status == "Failed" and self.in_poll:
                         # ground truth: this job ended Failed and a poll of the tuning loop is looking at it
                         self.failed_in_poll.append((t, self.n_polls))
+                    elif status == "Failed" and self.in_busy_look:
+                        # seen first by busy_trial_ids (start_jobs_without_delay=False): the trial is still listed as
+                        # running, so the next poll of the loop (if there is one) shows it Failed
+                        self.failed_in_poll.append((t, self.n_polls + 1))
                 res.append(TrialResult(trial_id=t, config=w["config"], creation_time=w["created"],
                                        metrics=list(w["metrics"]), status=_status_const(w["status"])))
             return res
@@ -291,7 +296,11 @@ def make_backend_class():
 
         def busy_trial_ids(self):
             # like LocalBackend, which re-reads the status of its jobs: a fresh look at every active worker
-            self._all_trial_results(sorted(self.workers))
+            self.in_busy_look = True
+            try:
+                self._all_trial_results(sorted(self.workers))
+            finally:
+                self.in_busy_look = False
             busy = [(t, _status_const(w["status"])) for t, w in sorted(self.workers.items()) if w["status"] in ACTIVE]
             self._call(("b_busy", [t for t, _ in busy]))
             return busy
